@@ -8,43 +8,62 @@ from vlib.shrink import ddmin
 META = {
     'level_text': 'Proved for ALL accepted runs of the transaction model (= all schedules of any number of callers, all device behaviours, all '
                   'non-decreasing clocks; the model is an acceptor of time-stamped event sequences with one event per primitive on shared '
-                  'state and per-caller program counters following io.py): lock_exclusive; multicomm_atomic (+ monitor soundness); '
-                  'stale_discarded_run, reply_pairing_run and reply_own_ret (every reply completed / returned is the first line or first rlen '
-                  'bytes of what ARRIVED AFTER one of the caller\'s own sends of that call; under in-order answers it is the device\'s answer); '
-                  'delays_honoured_run and delays_honoured_return; fails_within_timeout_run (an empty recv of the read loop ends at most one '
-                  'recv period after the time-out or the last data); state_visible_run; reconnect_rate_limited (under AttemptsAtomic = the effect '
-                  'of accessLock, a monitored clause with proved monitor soundness); callbacks_once_run (after a reconnect the caller\'s next '
-                  'events are the runs of the registered callbacks, each once, in order).  Proved for all inputs: framing_chunk_independent '
-                  '(+_bytes, _eq_unchunked) for AsynConn.readline/readbytes; polling_resumes_partial (trigger_all makes every polled module due).  '
-                  'state_visible_fails: the clause "is_connected is not set back to true without a connect" is FALSE for the code that exists '
-                  '(recorded finding, counter-run proved).  Every clause is judged by its Lean monitor on every run of the real '
-                  'StringIO/BytesIO under the deterministic scheduler, and every run is replayed through the model (0 rejected events).',
+                  'state and per-caller program counters following io.py, INCLUDING the identification made on every connect (checkHWIdent: '
+                  'one communicate per entry, retry of the first, close on mismatch, a reconnect from within an identification request) and '
+                  'replies of variable length (getFullReply -> readBytes)): lock_exclusive; multicomm_atomic (+ monitor soundness); '
+                  'exchange_atomic (+ monitor soundness): between the send of a command or identification request and every recv reading its '
+                  'reply - the part read by getFullReply included - no other caller touches the connection; closed_visible_run: a caller that '
+                  'drops the connection announces is_connected=false before it returns.  For all accepted runs of communicators WITHOUT '
+                  'identification: stale_discarded_run, reply_pairing_run (every reply completed is the first line / first rlen bytes of what '
+                  'ARRIVED AFTER the caller\'s own send, unless the connection was replaced or dropped since), reply_own_ret (replies of fixed '
+                  'length), delays_honoured_run and _return, fails_within_timeout_run (replies of fixed length), state_visible_run, '
+                  'reconnect_rate_limited (under AttemptsAtomic, a monitored clause with proved monitor soundness), callbacks_once_run.  '
+                  'Step level (any configuration): reconnect_mark_kept_partial (no step clears the reconnect mark), '
+                  'callbacks_after_ident_partial, ident_failed_partial, variable_reply_partial and the *_partial guards.  Proved for all inputs: '
+                  'framing_chunk_independent (+_bytes, _eq_unchunked); polling_resumes_partial.  state_visible_fails: "is_connected is not set '
+                  'back to true without a connect" is FALSE for the code that exists (recorded finding, counter-run proved).  Every clause is '
+                  'judged by its Lean monitor on every run of the real StringIO/BytesIO under the deterministic scheduler (every access of a '
+                  'thread to shared state is a scheduling point), and every run is replayed through the model (0 rejected events).',
     'level_note': 'Trusted: Lean kernel + axioms propext/Classical.choice/Quot.sound; the scripted device and FakeConn (lowest AsynConn layer: '
-                  'recv/send/flush_recv) replace sockets, select and kernel buffering; the run-level theorems for replies are stated at the event '
-                  'that completes a reply (model state), their link to the `ret`-window form of the monitors is by the model\'s `ret` guard, not '
-                  'a separate theorem (the `*_statement` definitions keep the monitor forms); polling_resumes is judged on the real poll thread only.',
+                  'recv/send/flush_recv) replace sockets, select and kernel buffering; the run-level theorems are stated at the events where '
+                  'the facts arise, their link to the `ret`-window form of the monitors is by the model\'s `ret` guard, not a separate theorem '
+                  '(the `*_statement` definitions keep the monitor forms); with an identification configured the run-level theorems about '
+                  'replies, delays, time-outs, rate limit and callbacks are NOT proved (only lock/exchange atomicity, closed_visible and the '
+                  'step-level facts) - these runs are covered by the monitors and the correspondence; polling_resumes is judged on the real poll '
+                  'thread only.',
     'trusted': [
-        'FakeConn.recv blocks at most AsynConn.timeout (1 s) and returns one device chunk at a time; flush_recv drains what has arrived (as AsynTcp)',
+        'FakeConn.recv blocks at most AsynConn.timeout (1 s) and returns one device chunk at a time; flush_recv drains what has arrived (as AsynTcp); '
+        'a connection closed on the host side by another thread makes recv/send raise (as a socket that was shut down)',
         'no byte arrives between the end of flush_recv and the send (same virtual instant)',
         'the virtual clock of vlib.sched (one tick per clock read); clock slack of 300 us per step in the time clauses',
-        'instrumentation from outside: lock proxy, time proxy of frappy.io, wrappers of check_connection/doPoll/registerReconnectCallback, '
-        'parameter callback on is_connected',
-        'the model has no accessLock: AttemptsAtomic is a hypothesis of reconnect_rate_limited and a monitored clause on the implementation',
+        'instrumentation from outside: lock proxies (_lock, accessLock), time proxy of frappy.io, wrappers of check_connection/doPoll/'
+        'registerReconnectCallback/checkHWIdent, parameter callback on is_connected, a BytesIO subclass whose getFullReply reads the rest of a reply',
+        'the model has no accessLock: AttemptsAtomic is a hypothesis of reconnect_rate_limited and a monitored clause on the implementation; a refused '
+        'non-blocking acquisition of accessLock is the event `busy`',
+        'identification patterns are literal prefixes followed by wildcards (`prefix.*`, `p r e ?? ??`)',
+        'no scheduling point between the update is_connected=True and the test of the reconnect mark that follows it (updateLock does not yield when it is given back; the model decides about the '
+        'callbacks at that event); the accesses of `_last_error` are scheduling points only in the `yattr` scenario, which is judged by the monitors only',
     ],
     'modelled_not_verified': [
         'sockets / serial lines / select (AsynTcp, AsynSerial)',
-        'checkHWIdent (identification), wait_before with an end-of-line inside a command (several sends per communicate)',
+        'wait_before with an end-of-line inside a command (several sends per communicate)',
         'write_is_connected from a client, the generic read wrapper of modulebase (only its late announce of is_connected is modelled)',
         'the real poll thread (only polling_resumes is judged on it)',
+        'with identification: run-level theorems other than lock_exclusive / multicomm_atomic / exchange_atomic / closed_visible_run',
     ],
     'assumptions': [
         'reply_pairing: in the window of a command the device sends nothing but its answer to that command (a late reply that arrives after '
         'the next send is indistinguishable from a reply and outside the statement)',
-        'fails_within_timeout: bound = max(send + timeout, last byte of the device in the window) + one recv period + delay + wait_before; a device '
-        'that keeps trickling bytes without completing a reply is not "silent" and extends the wait (AsynConn checks the clock only after an empty recv)',
+        'fails_within_timeout: bound = max(start of the read + timeout, last byte of the device in the window) + one recv period + delay + wait_before, '
+        'where every readBytes of getFullReply starts a read of its own; a device that keeps trickling bytes without completing a reply is not '
+        '"silent" and extends the wait (AsynConn checks the clock only after an empty recv); the exchange of an identification request ends when '
+        'the lock is given back',
         'reconnect_rate_limited: attempts on behalf of communicate calls come >= pollinterval after the previous attempt of any origin; poll-driven '
         'attempts follow the poll schedule (the stricter "any two attempts" is evaluated as reconnect_rate_limited_all, informative only)',
-        'stale_discarded/reply_pairing theorems: no successful connect between the send and the completion of the reply',
+        'stale_discarded/reply_pairing theorems: no successful connect and no closeConnection between the send and the completion of the reply',
+        'callbacks_once: a reconnect with an identification configured counts as successful when checkHWIdent has passed',
+        'state_visible: the update is_connected=false follows the detection before the detecting call returns - or another caller has dropped the '
+        'connection in between (then closed_visible applies to that caller)',
     ],
 }
 
@@ -77,6 +96,72 @@ class LockProxy:
         return False
 
 
+class AccessLockProxy(LockProxy):
+    """the module's accessLock: only a refused non-blocking acquisition is an event (check_connection does not wait for a
+    thread that is connecting)"""
+
+    def acquire(self, *a, **k):
+        ok = self.lock.acquire(*a, **k)
+        if not ok:
+            self.log.add('busy')
+        return ok
+
+    def release(self):
+        self.lock.release()
+
+
+def quiet_lock(sched, name):
+    """a re-entrant scheduler lock that is a scheduling point when it is taken, but not when it is given back.
+    Used for the module's updateLock: another thread may run BEFORE a parameter update (the lock is taken first); the
+    update itself (value stored, callbacks called) up to the next statement of the caller is one step, the scheduling
+    points after it are the explicit ones of the instrumentation"""
+    from vlib.sched import SLock
+
+    class QuietLock(SLock):
+        def acquire(self, blocking=True, timeout=-1):
+            who = self._who()
+            self.sched.yield_(('acquire', self.name))
+            if not self._free_for(who):
+                if not blocking:
+                    return False
+                ok = self.sched.block(('acquire.wait', self.name), lambda: self._free_for(who),
+                                      None if timeout is None or timeout < 0 else timeout)
+                if not ok:
+                    return False
+            self.owner = who
+            self.depth += 1
+            return True
+
+        def release(self):
+            self.depth -= 1
+            if self.depth == 0:
+                self.owner = None
+
+        __enter__ = acquire
+
+    return QuietLock(sched, name, reentrant=True)
+
+
+class YieldingAttr:
+    """a plain instance attribute whose reads and writes are scheduling points (scenarios with 'yattr': [names]);
+    such runs are judged by the monitors only: the model has no event for these accesses"""
+
+    def __init__(self, name, log, default=None):
+        self.key = '_y_' + name
+        self.log = log
+        self.default = default
+
+    def __get__(self, obj, cls=None):
+        if obj is None:
+            return self
+        self.log.sync('attr.r')
+        return obj.__dict__.get(self.key, self.default)
+
+    def __set__(self, obj, value):
+        self.log.sync('attr.w')
+        obj.__dict__[self.key] = value
+
+
 class TimeProxy:
     """stands in for the `time` module inside frappy.io: sleeps and clock reads are logged"""
 
@@ -85,6 +170,7 @@ class TimeProxy:
         self._log = log
 
     def time(self):
+        self._log.sync('now')
         v = self._t.time()
         self._log.add('now', v=self._log.us(v))
         return v
@@ -128,32 +214,81 @@ def run_case(case, policy=None, max_steps=20000):
     tproxy = TimeProxy(s.time, log)
     bytes_mode = case['mode'] == 'bytes'
     kinds = {}
+    in_ident = set()
     with s.patched(frappy.io, threading=s.threading, time=tproxy), \
             s.patched(frappy.modulebase, threading=s.threading, time=s.time, mkthread=s.mkthread), \
             s.patched(frappy.lib.asynconn, time=s.time):
         dev = fakes.Device(s, log, 'dev', case['device'])
+        dev.send_kind = lambda: 'isend' if log.who() in in_ident else 'send'
         try:
-            cfg = {'cls': frappy.io.BytesIO if bytes_mode else frappy.io.StringIO, 'description': 'x', 'uri': dev.uri}
+            cls = frappy.io.BytesIO if bytes_mode else frappy.io.StringIO
+            if bytes_mode and case.get('varlen'):
+                class VarLen(cls):
+                    """replies of variable length, the documented way: a header of fixed length tells how many bytes
+                    follow (its last byte, a digit), getFullReply fetches them with readBytes"""
+
+                    def getFullReply(self, request, replyheader):
+                        tail = replyheader[-1:]
+                        if len(replyheader) == 2 and tail.isdigit() and int(tail) > 0:
+                            log.sync('more')
+                            log.add('more', n=int(tail))
+                            return replyheader + self.readBytes(int(tail))
+                        return replyheader
+                cls = VarLen
+            if case.get('yattr'):
+                cls = type('Instrumented', (cls,), {a: YieldingAttr(a, log, getattr(cls, a, None)) for a in case['yattr']})
+            cfg = {'cls': cls, 'description': 'x', 'uri': dev.uri}
             for k, v in case['io'].items():
                 cfg[k] = {'value': v}
-            if case.get('ident'):      # hand experiments only: checkHWIdent is not modelled
-                cfg['identification'] = [('ID', 'id.*')]
+            if case.get('ident'):      # [[command, prefix of the expected reply, length of the reply (bytes mode)], ...]
+                if bytes_mode:
+                    cfg['identification'] = [(' '.join(c), ' '.join(list(pfx) + ['??'] * (n - len(pfx))))
+                                             for c, pfx, n in case['ident']]
+                else:
+                    import re
+                    cfg['identification'] = [(c, re.escape(pfx) + '.*') for c, pfx, n in case['ident']]
+                    if case.get('ident_retry') is False:
+                        cfg['retry_first_idn'] = False
             node = Node({'io': cfg})
             io = node.modules['io']
             io._lock = LockProxy(io._lock, log)
+            io.accessLock = AccessLockProxy(io.accessLock, log)
+            io.updateLock = quiet_lock(s, 'updateLock')
+            if case.get('ident'):
+                real_ident = io.checkHWIdent
+
+                def check_ident():      # sends made in here are identification requests; its outcome is an event
+                    me = log.who()
+                    in_ident.add(me)
+                    try:
+                        real_ident()
+                    except BaseException:
+                        in_ident.discard(me)
+                        log.sync('idend')
+                        log.add('idend', ok=False)
+                        raise
+                    in_ident.discard(me)
+                    log.sync('idend')
+                    log.add('idend', ok=True)
+                io.checkHWIdent = check_ident
 
             def on_isconn(v, err=None):
                 if err is None:
                     log.add('isconn', v=bool(v))
+                    if not v:       # the new value is visible from here on: other threads may act on it.  (Not after
+                        log.sync('isconn')      # `True`: connectStart reads `_last_error` next, and the model decides
+                                                # about the callbacks AT this event — see design_notes, "limits";
+                                                # for the same reason updateLock does not yield when it is released)
             io.addCallback('is_connected', on_isconn)
             for name in case.get('callbacks') or ():
                 keep = not name.startswith('once')      # a callback returning False is removed after its first run
                 io.registerReconnectCallback(
-                    name, (lambda name=name, keep=keep: bool(log.add('cb', name=name, keep=keep)) and keep))
+                    name, (lambda name=name, keep=keep: log.sync('cb') or (bool(log.add('cb', name=name, keep=keep)) and keep)))
             real_register = io.registerReconnectCallback
 
             def register(name, func):       # callbacks registered later (the poll thread's trigger_polls) are logged too
                 def logged():
+                    log.sync('cb')
                     r = func()
                     log.add('cb', name=name, keep=bool(r))
                     return r
@@ -162,6 +297,7 @@ def run_case(case, policy=None, max_steps=20000):
             real_check = io.check_connection
 
             def check_connection():
+                log.sync('chk')
                 log.add('chk', v=bool(io.is_connected))
                 return real_check()
             io.check_connection = check_connection
@@ -193,15 +329,21 @@ def run_case(case, policy=None, max_steps=20000):
                     if op[0] == 'sleep':
                         s.time.sleep(op[1])
                         continue
+                    if op[0] == 'until':      # absolute virtual time (since the start of the run): callers can meet
+                        s.time.sleep(max(0.0, t_start + op[1] - s.now))
+                        continue
                     kinds[log.who()] = op[0]
+                    log.sync('call')
                     log.add('call', i=i, op=op)
                     try:
                         r = do(op)
-                        log.add('ret', i=i, r=r)
                     except Exception as e:      # the error class is the observation
-                        log.add('ret', i=i, r=err_class(e))
+                        r = err_class(e)
+                    log.sync('ret')
+                    log.add('ret', i=i, r=r)
                     kinds[log.who()] = None
 
+            t_start = s.now
             for n, ops in enumerate(case['callers']):
                 s.spawn(f'c{n}', caller, (ops,))
             p = case.get('poller')
@@ -265,9 +407,13 @@ def us(x):
 def model_cfg(case):
     io = case['io']
     from frappy.lib.asynconn import AsynConn
-    return {'bytes': case['mode'] == 'bytes', 'eol': '' if case['mode'] == 'bytes' else case.get('eol', '\n'),
+    bm = case['mode'] == 'bytes'
+    eol = '' if bm else case.get('eol', '\n')
+    return {'bytes': bm, 'eol': eol,
             'timeout': us(io.get('timeout', 2)), 'wait_before': us(io.get('wait_before', 0)),
-            'interval': us(io.get('pollinterval', 10)), 'gran': us(AsynConn.timeout), 'slack': SLACK}
+            'interval': us(io.get('pollinterval', 10)), 'gran': us(AsynConn.timeout), 'slack': SLACK,
+            'ident': [[c + eol, n if bm else 0, pfx] for c, pfx, n in case.get('ident') or ()],
+            'retry_first': case.get('ident_retry') is not False}
 
 
 def model_reqs(case, op):
@@ -306,12 +452,16 @@ def model_events(case, events):
             out.append([t, 'isconn', c, ev['v']])
         elif e == 'cb':
             out.append([t, 'cb', c, cbs.index(ev['name']) if ev['name'] in cbs else CB_TRIGGER, ev['keep']])
-        elif e in ('acq', 'rel', 'wake', 'flush', 'hclose'):
+        elif e in ('acq', 'rel', 'wake', 'flush', 'hclose', 'busy'):
             out.append([t, e, c])
         elif e == 'slp':
             out.append([t, 'slp', c, ev['d']])
-        elif e == 'send':
-            out.append([t, 'send', c, ev['conn'], ev['n'], ev['data']])
+        elif e in ('send', 'isend'):
+            out.append([t, e, c, ev['conn'], ev['n'], ev['data']])
+        elif e == 'more':
+            out.append([t, 'more', c, ev['n']])
+        elif e == 'idend':
+            out.append([t, 'idend', c, ev['ok']])
         elif e == 'recv':
             out.append([t, 'recv', c, ev['out']] + ([ev['data']] if ev['out'] == 'data' else []))
         elif e == 'arrive':
@@ -379,14 +529,27 @@ def gen_frame(rng):
 CMDS = ['A', 'B', 'C', 'D', 'E']
 
 
-def gen_device(rng, bm, faults):
+IDENT_CMDS = ['ID', 'IV']
+
+
+def gen_device(rng, bm, faults, varlen=False, ident=None):
     cmds = {}
     for c in CMDS:
         delay = rng.choice([0, 0, 0.1, 0.3, 0.7])
-        reply = (c.lower() + '{n}xyz')[:4] if bm else c.lower() + '{n}' + rng.choice(['', '', ' ok', ';' * rng.randint(1, 3)])
+        if bm and varlen:       # header (2 bytes: letter, number of bytes that follow) + body; a body longer than announced
+            k = rng.choice([0, 1, 2, 3, 3])     # leaves garbage behind, a shorter one lets readBytes run into the time-out
+            reply = c.lower() + str(k) + ('{n}yz' if rng.random() < 0.85 else '{n}')
+        else:
+            reply = c.lower() + '{n}xy' if bm else c.lower() + '{n}' + rng.choice(['', '', ' ok', ';' * rng.randint(1, 3)])
         cmds[c] = {'reply': reply, 'delay': delay, 'chunks': [rng.randint(1, 3) for _ in range(rng.choice([0, 0, 1, 2, 4]))],
                    'gap': rng.choice([0, 0, 0.05, 0.4])}
     cmds['W'] = {'reply': None}
+    for c, pfx, n in ident or ():
+        good = pfx + '{n}' + 'xyz'[:n - len(pfx) - 1] if bm else pfx + '{n}'      # (bytes: one byte too many from send 10 on)
+        bad = '?' * len(pfx) + '{n}' + 'xyz'[:n - len(pfx) - 1] if bm else '??{n}'
+        r = rng.random()        # mostly the expected device; sometimes garbled once, another device, or no answer at all
+        reply = good if r < 0.6 else [bad, good] if r < 0.75 else [good, bad, good] if r < 0.85 else bad if r < 0.93 else None
+        cmds[c] = {'reply': reply, 'delay': rng.choice([0, 0, 0.1, 0.4]), 'chunks': [rng.randint(1, 2) for _ in range(rng.choice([0, 0, 1]))]}
     dev = {'eol': '' if bm else '\n', 'cmds': cmds, 'default': None}
     if 'late' in faults:
         cmds[rng.choice(CMDS)]['delay'] = rng.choice([2.2, 2.6, 3.5])
@@ -406,21 +569,28 @@ def gen_device(rng, bm, faults):
     return dev
 
 
-def gen_ops(rng, bm, n):
+GRID = [0.0, 0.0, 1.0, 2.1, 3.2, 3.2, 3.5, 5.3, 6.4, 6.4, 7.15, 9.6]     # no two of them exactly a reconnect interval apart
+
+
+def gen_ops(rng, bm, n, varlen=False, aligned=False):
     ops = []
-    for _ in range(n):
-        if rng.random() < 0.5:
+    tgrid = sorted(rng.sample(range(len(GRID)), min(n, len(GRID))))
+    for j in range(n):
+        if aligned:         # callers (and the device's timed close) meet at the same virtual instants
+            ops.append(['until', GRID[tgrid[j]]])
+        elif rng.random() < 0.5:
             ops.append(['sleep', rng.choice([0.1, 0.5, 1.0, 2.5, 3.1])])
         r = rng.random()
         c = rng.choice(CMDS)
         if r < 0.5:
-            ops.append(['comm', c, 4] if bm else ['comm', c])
+            ops.append(['comm', c, 2 if varlen else 4] if bm else ['comm', c])
         elif r < 0.65 and not bm:
             ops.append(['write', 'W'])
         else:
             k = rng.randint(1, 3)
             if bm:
-                ops.append(['multi', [[rng.choice(CMDS), rng.choice([4, 4, 2, 0]), rng.choice([0, 0.2, 0.5])] for _ in range(k)]])
+                ops.append(['multi', [[rng.choice(CMDS), 2 if varlen else rng.choice([4, 4, 2, 0]), rng.choice([0, 0.2, 0.5])]
+                                      for _ in range(k)]])
             else:
                 rq = [[rng.choice(CMDS), rng.random() < 0.75, rng.choice([0, 0.2, 0.5])] for _ in range(k)]
                 ops.append(['multi', [['W' if not x else c, x, d] for c, x, d in rq]])
@@ -436,13 +606,29 @@ def gen_case(rng):
     if 'close' in faults and rng.random() < 0.5:
         faults.add('refuse')
     interval = rng.choice([3, 3, 5])
+    varlen = bm and rng.random() < 0.5
+    aligned = rng.random() < 0.35
+    ident = None
+    if rng.random() < 0.35:
+        ident = [[c, 'id' if c == 'ID' else 'v', 4] for c in IDENT_CMDS[:rng.choice([1, 1, 2])]]
     case = {'mode': 'bytes' if bm else 'string',
             'io': {'timeout': rng.choice([2, 2, 1.5]), 'wait_before': rng.choice([0, 0, 0.05]), 'pollinterval': interval},
-            'device': gen_device(rng, bm, faults),
-            'callers': [gen_ops(rng, bm, rng.randint(1, 3)) for _ in range(rng.randint(2, 4))],
+            'device': gen_device(rng, bm, faults, varlen, ident),
+            'callers': [gen_ops(rng, bm, rng.randint(1, 3), varlen, aligned) for _ in range(rng.randint(2, 4))],
             'poller': {'interval': interval, 'count': rng.randint(1, 3)} if rng.random() < 0.6 else None,
             'callbacks': rng.choice([[], ['cb0'], ['cb0', 'once1'], ['once0', 'cb1', 'cb2']]),
             'faults': sorted(faults)}
+    if varlen:
+        case['varlen'] = True
+    if ident:
+        case['ident'] = ident
+        if not bm and rng.random() < 0.3:
+            case['ident_retry'] = False
+    if aligned:
+        case['aligned'] = True
+        cl = case['device'].get('close')
+        if cl and 'at' in cl:
+            cl['at'] = rng.choice(GRID[2:])
     return case
 
 
@@ -476,7 +662,79 @@ def catalogue():
     # silence
     cat.append({'mode': 'bytes', 'io': io, 'device': {'eol': '', 'default': {'reply': 'ab'}, 'cmds': {'S': {'reply': None}}},
                 'callers': [[['comm', 'S', 2]], [['comm', 'A', 2], ['multi', [['S', 2, 0.1], ['A', 2, 0.1]]]]], 'callbacks': []})
+    # a second caller enters exactly while the first one detects the disconnect and closes (reconnect interval elapsed)
+    cat.append({'mode': 'string', 'io': io, 'device': {'default': dflt, 'close': {'send': 1, 'phase': 'before'}},
+                'callers': [[['comm', 'A'], ['until', 3.5], ['comm', 'B'], ['until', 7.0], ['comm', 'C']],
+                            [['until', 3.5], ['comm', 'D'], ['until', 7.0], ['comm', 'E']]],
+                'poller': {'interval': 3, 'count': 3}, 'callbacks': ['cb0']})
+    # the poller's turn comes exactly while a caller detects a clean disconnect and closes
+    cat.append({'mode': 'string', 'io': io, 'device': {'default': dflt, 'close': {'send': 1, 'phase': 'before'}},
+                'callers': [[['comm', 'A'], ['until', 3.5], ['comm', 'B'], ['until', 7.0], ['comm', 'C']],
+                            [['until', 3.5], ['poll'], ['until', 7.0], ['poll']]],
+                'callbacks': ['cb0']})
+    # ... the same with scheduling points at the accesses of `_last_error` (monitors only)
+    cat.append({'mode': 'string', 'io': io, 'yattr': ['_last_error'],
+                'device': {'default': dflt, 'close': {'send': 1, 'phase': 'before'}},
+                'callers': [[['comm', 'A'], ['until', 3.5], ['comm', 'B'], ['until', 7.0], ['comm', 'C']],
+                            [['until', 3.5], ['poll'], ['until', 7.0], ['poll']]],
+                'callbacks': ['cb0']})
+    # replies of variable length (getFullReply reads the rest): two callers at the same instant, the rest arrives later
+    cat.append({'mode': 'bytes', 'varlen': True, 'io': io,
+                'device': {'eol': '', 'default': {'reply': 'r3{n}yz', 'delay': 0.1, 'chunks': [2, 1], 'gap': 0.05}},
+                'callers': [[['comm', 'A', 2], ['comm', 'B', 2]], [['comm', 'C', 2]], [['multi', [['D', 2, 0.1], ['E', 2, 0]]]]],
+                'callbacks': []})
+    # identification on (re)connect: clean disconnect, reconnect by the poller and on demand, callbacks
+    cat.append({'mode': 'string', 'io': io, 'ident': [['ID', 'id', 4]],
+                'device': {'default': dflt, 'cmds': {'ID': {'reply': 'id{n}', 'delay': 0.1}}, 'close': {'at': 1.0}, 'close2': {'at': 2.0}},
+                'callers': [[['comm', 'A'], ['sleep', 1.5], ['comm', 'B'], ['until', 3.5], ['comm', 'C'], ['until', 6.0], ['comm', 'D'],
+                             ['until', 7.0], ['comm', 'E']]],
+                'poller': {'interval': 3, 'count': 3}, 'callbacks': ['cb0', 'once1']})
+    # identification garbled once (retry of the first request), and a wrong device (the reconnect never succeeds)
+    cat.append({'mode': 'string', 'io': io, 'ident': [['ID', 'id', 4], ['IV', 'v', 4]],
+                'device': {'default': dflt, 'cmds': {'ID': {'reply': ['??', 'id{n}', 'id{n}', '??', 'id{n}']}, 'IV': {'reply': ['v1', 'w', 'v2']}},
+                           'close': {'at': 1.0}},
+                'callers': [[['comm', 'A'], ['until', 3.5], ['comm', 'B'], ['until', 7.0], ['comm', 'C'], ['until', 10.5], ['comm', 'D']]],
+                'poller': {'interval': 3, 'count': 3}, 'callbacks': ['cb0']})
+    cat.append({'mode': 'bytes', 'io': io, 'ident': [['ID', 'id', 4]],
+                'device': {'eol': '', 'default': {'reply': 'r{n}xy', 'delay': 0.1}, 'cmds': {'ID': {'reply': ['id{n}x', 'xx{n}y', 'id{n}x']}},
+                           'close': {'send': 2, 'phase': 'after_cmd'}},
+                'callers': [[['comm', 'A', 4], ['until', 3.5], ['comm', 'B', 4], ['until', 7.0], ['comm', 'C', 4], ['until', 10.5], ['comm', 'D', 4]],
+                            [['until', 3.5], ['comm', 'E', 4]]],
+                'poller': {'interval': 3, 'count': 3}, 'callbacks': ['cb0']})
     return cat
+
+
+def modelled(case):
+    """scenario classes the transaction model covers (the others are judged by the monitors only)"""
+    return not case.get('yattr')
+
+
+def explore_levels(make_run, max_preemptions, max_runs, rng):
+    """schedules by number of preemptions: the default schedule, then ALL schedules with one preemption (in random order),
+    then those with two, ... until max_runs — a race that needs one switch at the right place is found before the budget
+    is spent on deep variations of the first few schedules"""
+    from vlib.sched import ReplayThenDefault
+    level = [[]]
+    runs = 0
+    seen = set()
+    for depth in range(max_preemptions + 1):
+        nxt = []
+        rng.shuffle(level)
+        for prefix in level:
+            if runs >= max_runs:
+                return
+            if tuple(prefix) in seen:
+                continue
+            seen.add(tuple(prefix))
+            sched, obs = make_run(ReplayThenDefault(prefix))
+            runs += 1
+            yield prefix, sched, obs
+            if depth < max_preemptions:
+                for pos in range(len(prefix), len(sched.choices)):
+                    n, chosen, default = sched.choices[pos]
+                    base = [sched.choices[i][1] for i in range(pos)]
+                    nxt.extend(base + [alt] for alt in range(n) if alt != chosen)
+        level = nxt
 
 
 def realpoll_case(rng):
@@ -488,8 +746,8 @@ def realpoll_case(rng):
 
 
 # ----------------------------------------------------------------------------------------
-CLAUSES = ['multicomm_atomic', 'delays_honoured', 'stale_discarded', 'reply_pairing', 'fails_within_timeout',
-           'state_visible', 'state_not_overwritten', 'reconnect_rate_limited', 'attempts_atomic', 'callbacks_once', 'polling_resumes']
+CLAUSES = ['multicomm_atomic', 'exchange_atomic', 'delays_honoured', 'stale_discarded', 'reply_pairing', 'fails_within_timeout',
+           'state_visible', 'closed_visible', 'state_not_overwritten', 'reconnect_rate_limited', 'attempts_atomic', 'callbacks_once', 'polling_resumes']
 
 
 def canon_events(events):
@@ -549,17 +807,17 @@ def run(ctx):
         s, out = run_case(case, policy)
         return s, out
 
-    nexplore = ctx.budget(110, 2500)
+    nexplore = ctx.budget(110, 700)
     for ci, case in enumerate(catalogue()):
         n = 0
-        for prefix, s, out in explore(lambda pol, case=case: one(case, pol), max_preemptions=2, max_runs=nexplore, rng=rng):
+        for prefix, s, out in explore_levels(lambda pol, case=case: one(case, pol), 2, nexplore, rng):
             runs.append((case, [c[1] for c in s.choices], out))
             n += 1
         res.count('catalogue[%d].schedules' % ci, n)
     for c in corpus:
         s, out = one(c['case'], ReplayThenDefault(c.get('choices') or []))
         runs.append((c['case'], [x[1] for x in s.choices], out))
-    for _ in range(ctx.budget(380, 6000)):
+    for _ in range(ctx.budget(380, 3000)):
         case = gen_case(rng)
         for _ in range(2):
             s, out = one(case, RandomPolicy(rng, rng.choice([0.1, 0.3, 0.6])))
@@ -615,7 +873,10 @@ def run(ctx):
                 seen_sigs[sig] = 1
                 res.violations.append({'sig': sig, 'what': f'run does not terminate normally: {out["sched"]}', 'case': payload})
             continue
-        if ctx.model_ok and not rep['accepted']:
+        for f in ('ident', 'varlen', 'aligned'):
+            if case.get(f):
+                res.count('script.' + f)
+        if ctx.model_ok and modelled(case) and not rep['accepted']:
             bad = evs[rep['at']] if rep['at'] < len(evs) else None
             res.disagreements.append({'case': payload, 'model': {k: rep[k] for k in ('at', 'pc', 'expected_result', 'state')},
                                       'impl': {k: v for k, v in (bad or {}).items() if k not in ('seq', 'tf')}})
